@@ -49,6 +49,36 @@ CHECKS = {
         technique="TLA+ spec + TLC trace validation of instrumented observation phases (statement-level shim)"),
 }
 
+CHECKS.update({
+    "C10": dict(
+        category="model_checking",
+        text="Library.tla's Reopen action (UNCHANGED state); histories from the bounded graphs are executed on libraries created on "
+             "disk and after EVERY call all handles are released, database_exists() and load_database() are called and the complete "
+             "observation is validated by TLC against the abstract state, together with the reported schema (sentinel-initialised "
+             "out-parameter).",
+        design="§7 C10",
+        note="closing at every prefix of every replayed history; crate/membership/track-existence state here, track fields in C01/C06; " + TRUST,
+        technique="TLA+ spec + TLC trace validation of reopen-after-every-call executions on disk"),
+    "C11": dict(
+        category="model_checking",
+        text="RawStore.tla states, per schema family, how the raw tables must store the abstract state (three redundant crate "
+             "encodings of 1.x, sibling/entity chains of 2.x, derived track columns, no dangling rows, trackCount) plus integrity_check, "
+             "foreign_key_check and verify(); an independent reader dumps the rows after every call and TLC evaluates the invariant "
+             "in every trace state.",
+        design="§7 C11",
+        note="raw rows read through the plain SQLite C API on the library's own connection; blobs are judged by C02/C04; " + TRUST,
+        technique="TLA+ store invariants (RawStore.tla) evaluated by TLC on raw rows logged after every call"),
+    "C14": dict(
+        category="fault_enumeration",
+        text="Library.tla's Failed action (throw, UNCHANGED state); for every call of every replayed history, every position k of a "
+             "failing SQL statement is enumerated exhaustively by the link-level shim (k = 1..n, reads/writes/BEGIN/COMMIT); TLC "
+             "validates that each faulted attempt throws, changes neither the observation nor the table digest, and that the "
+             "history continues to conform.",
+        design="§7 C14",
+        note="a failing statement has no effect of its own; ROLLBACK (the recovery action) is not failed; " + TRUST,
+        technique="TLA+ spec + exhaustive statement-level fault enumeration + TLC trace validation"),
+})
+
 NOT_YET = "check not built yet (work in progress)"
 NA = {
     "C12": "static comparison of two DDL texts modulo whitespace/quoting: no state, no transitions, nothing for TLC to explore "
